@@ -124,6 +124,16 @@ def work(prefix):
             out.append(((s1, s2, s3), k, r[1] if k == 'mismatch' else r))
         if k == 'mismatch':
             r, k = r[0], 'ok'
+        if k == 'rejected':
+            # "the outcome does not depend on the path taken": the same
+            # step from the same schema built directly must be rejected too
+            k2, r2 = step(_W['c02'].built(s2)[0], s3)
+            if k2 in ('ok', 'mismatch'):
+                count('path-dependent-rejection')
+                out.append(((s1, s2, s3), 'path-dependent-rejection',
+                            f'{s2} -> {s3} is rejected ({r}) when {s2} was '
+                            f'reached from {s1}, accepted when {s2} was '
+                            f'built directly'))
         if k == 'ok':
             final((s1, s2, s3), r, 3)
     return out, counts, edges
